@@ -136,6 +136,12 @@ def _build_ops(nr, nc, ds, rng):
         ("ucat_area_ha", lambda f: f.ucat_area(f.ucat_outlets(cs), unit="ha")), ("ucat_area_km2", lambda f: f.ucat_area(f.ucat_outlets(cs), unit="km2")),
         ("uparea_ha", lambda f: f.upstream_area("ha")), ("uparea_km2_memo", lambda f: f.upstream_area("km2")),
         ("subgrid_rivlen_m", lambda f: f.subgrid_rivlen(f.ucat_outlets(cs), unit="m")),
+        # documented option combinations of the iterative upscaling (round-4 seed: a local only set on one of them)
+        ("upscale_ihu_no_rivlen", lambda f: f.upscale(cs + 1, method="ihu", opt_rivlen=False)),
+        ("upscale_ihu_no_minerr", lambda f: f.upscale(cs + 1, method="ihu", min_error=False)),
+        ("upscale_ihu_neither", lambda f: f.upscale(cs + 1, method="ihu", opt_rivlen=False, min_error=False)),
+        ("upscale_ihu_niter1", lambda f: f.upscale(cs + 1, method="ihu", niter=1)),
+        ("rivavg_mask_up", lambda f: f.subgrid_rivavg(f.ucat_outlets(cs), I["elv"], mask=I["mask_full"], direction="up")),
         ("add_pits_dup_use", lambda f: (f.add_pits(idxs=np.array([I["outl"][0], I["outl"][0]])), f.upstream_area(), f.basins(), f.rank, f.stream_order())),
         ("add_pits_dup_xy_use", lambda f: (f.add_pits(xy=(np.array([I["xs"][0], I["xs"][0]]), np.array([I["ys"][0], I["ys"][0]]))), f.upstream_area(), f.basins())),
         ("add_pits", lambda f: f.add_pits(idxs=I["outl"][:1])), ("add_pits_xy", lambda f: f.add_pits(xy=(I["xs"][:1], I["ys"][:1]))),
